@@ -7,7 +7,18 @@ LBytes == <<237, 211, 245, 92, 26, 99, 18, 88, 214, 156, 247, 162, 222, 249, 222
 LNat == BNFromBytes(LBytes)
 ScToNat(b) == BNFromBytes(b)
 ScFromNat(n) == BNToBytes(n, 32)
-ScReduceNat(n) == BNMod(n, LNat)
+\* Barrett reduction modulo L (k = 253 bits): valid for n < 2^506; larger inputs (64-byte strings) are split first.
+\* It is exact arithmetic on naturals - only faster than the bit-by-bit BNMod; AnchorScalarL checks both agree.
+Mu == TLCEval(BNDiv(BNPow2(506), LNat))
+R260 == TLCEval(BNMod(BNPow2(260), LNat))
+Barrett(n) ==
+  LET q == BNShr(BNMul(BNShr(n, 252), Mu), 254)
+      r0 == BNSub(n, BNMul(q, LNat))
+      r1 == IF BNCmp(r0, LNat) >= 0 THEN BNSub(r0, LNat) ELSE r0
+  IN IF BNCmp(r1, LNat) >= 0 THEN BNSub(r1, LNat) ELSE r1
+ScReduceNat(n) ==
+  IF Len(n) <= 38 THEN Barrett(n)
+  ELSE Barrett(BNAdd(BNMul(Barrett(BNHigh(n, 20)), R260), BNLow(n, 20)))
 ScIsCanonical(b) == BNCmp(BNFromBytes(b), LNat) < 0                 \* 0 <= s < L
 ScReduce(b) == ScFromNat(ScReduceNat(BNFromBytes(b)))              \* any length (32 or 64 bytes)
 ScAdd(a, b) == ScFromNat(ScReduceNat(BNAdd(BNFromBytes(a), BNFromBytes(b))))
@@ -21,8 +32,8 @@ ScComplement(a) == ScFromNat(ScReduceNat(BNAdd(<<1>>, ScNegNat(BNFromBytes(a))))
 ScInvert(a) ==
   LET x == ScReduceNat(BNFromBytes(a))
       e == BNSub(LNat, <<2>>)
-      r == FoldLeft(LAMBDA acc, i : LET s == ScReduceNat(BNMul(acc, acc)) IN IF BNBit(e, 252 - i) = 1 THEN ScReduceNat(BNMul(s, x)) ELSE s,
-                    <<1>>, [i \in 0..252 |-> i])
+      r == FoldLeft(LAMBDA acc, i : LET s == ScReduceNat(BNMul(acc, acc)) IN IF BNBit(e, 253 - i) = 1 THEN ScReduceNat(BNMul(s, x)) ELSE s,
+                    <<1>>, [i \in 1..253 |-> i])
   IN ScFromNat(r)
 ScIsZero(a) == BNIsZero(ScReduceNat(BNFromBytes(a)))
 =============================================================================
